@@ -790,7 +790,7 @@ namespace BitSerializer::MsgPack::Detail
 				binarySize = sz32;
 				return true;
 			}
-			HandleMismatchedTypesPolicy(mInputData, mPos, ReadValueType(), mSerializationOptions.mismatchedTypesPolicy);
+			// Not a binary array: the value is left in place, the caller falls back to reading it as a regular array
 			return false;
 		}
 		throw ParsingException("No more values to read", 0, mPos);
@@ -1393,6 +1393,8 @@ namespace BitSerializer::MsgPack::Detail
 				binarySize = sz32;
 				return true;
 			}
+			// Not a binary array: the value is left in place, the caller falls back to reading it as a regular array
+			return false;
 		}
 		throw ParsingException("No more values to read", 0, mBinaryStreamReader.GetPosition());
 	}
